@@ -44,7 +44,7 @@ func init() {
 			}
 			return changed >= 3 && noop >= 1
 		},
-		Rule:     "op sequences on two DList[int] (all Push/Insert/Move/Remove forms, node-inserting forms with detached nodes, PushBackDList/PushFrontDList incl. onto itself; handles 60% live / 25% removed / 15% of the other list) or on one SList[int] (index ops with indices -1..len+1 and, one in eight, huge ones: ±2^31±j, ±2^32±j, ±2^33+j, MaxInt-j, MinInt+j; Len/Front/Back/Next observers incl. Next of removed nodes); plus a stream of long lists (100-20000 nodes, thorough up to 65537; bulk pushn/removen, index and handle operations at positions 0, 1, n/2, n-2, n-1, n, n+1, self-copies doubling the list, digests of the full forward/backward/All() traversals) and a stream of phased histories (the same node removed and re-inserted many times through the *Node entry points, move chains, drain - Init - reuse, fill - drain - refill of an SList); non-trivial = at least three operations changed a list and at least one mutator was a no-op (stale/foreign handle, out-of-range index, move onto itself); distinct by hash of the op list",
+		Rule:     "op sequences on two DList[int] (all Push/Insert/Move/Remove forms, node-inserting forms with detached nodes, PushBackDList/PushFrontDList incl. onto itself; handles 60% live / 25% removed / 15% of the other list) or on one SList[int] (index ops with indices -1..len+1 and, one in eight, huge ones: ±2^31±j, ±2^32±j, ±2^33+j, MaxInt-j, MinInt+j; Len/Front/Back/Next observers incl. Next of removed nodes); plus a stream of long lists (100-20000 nodes, thorough up to 65537; bulk pushn/removen, index and handle operations at positions 0, 1, n/2, n-2, n-1, n, n+1, self-copies doubling the list, digests of the full forward/backward/All() traversals) and a stream of phased histories (the same node removed and re-inserted many times through the *Node entry points, move chains, drain - Init - reuse, fill - drain - refill of an SList; every node returned by Remove/RemoveFront re-linked at once through a *Node entry point into the same or a second SList sharing the nodes (line flip); loops allbody/walkbody = range over All() / Front-Next with a body that mutates the list at chosen iterations through handles or indices obtained before the loop); non-trivial = at least three operations changed a list and at least one mutator was a no-op (stale/foreign handle, out-of-range index, move onto itself); distinct by hash of the op list",
 		Classify: classify,
 		Parallel: true,
 		Assumptions: []string{
@@ -65,7 +65,7 @@ func dumpOf(line string) string {
 func isMutator(l string) bool {
 	t := core.Toks(l)
 	switch t[0] {
-	case "front", "back", "next", "prev", "get", "new", "len":
+	case "front", "back", "next", "prev", "get", "new", "len", "flip":
 		return false
 	}
 	return true
@@ -179,6 +179,13 @@ func corpus() []core.Case {
 		// histories: the same node through every *Node entry point, then used as a handle
 		{Lines: []string{"@ C13 dlist n z", "pb A 1", "pb A 2", "pb A 3", "rm A 3", "pbn A 3", "prev 3", "next 3", "rm A 3", "pfn A 3", "next 3", "rm A 3", "inb A 3 4", "prev 4", "rm A 3", "ina B 3 2", "ina A 3 2", "mtb A 3", "rm A 3", "pbn B 3", "prev 3", "ib B 7 3", "rm B 3", "removen A 9", "init A", "pbn A 3", "pb A 4", "mtf A 4", "prev 3"}, Tag: "history"},
 		{Lines: []string{"@ C13 slist n", "pb 1", "pb 2", "pb 3", "rm 2", "back", "rm 1", "back", "rm 0", "back", "len", "pbn 2", "back", "pfn 0", "insn 1 1", "back", "rmf", "rmf", "rmf", "back", "front", "pb 9", "back", "rm 0", "pbn 0", "next 0", "back"}, Tag: "history"},
+		// ranging while the body mutates the list through handles obtained before the loop: remove the
+		// successor / the current node / move the successor to the back / insert after the current node
+		{Lines: []string{"@ C13 dlist n z", "pb A 1", "pb A 2", "pb A 3", "pb A 4", "pb A 5", "allbody A 0:rm:A:3", "allbody A 1:mtb:A:5", "allbody A 0:ia:A:9:2", "walkbody A 1:rm:A:7", "allbody A 0:rm:A:2", "pbn A 2", "walkbody A 2:break", "allbody A 1:mtf:A:5 2:mb:A:4:5", "allbody A 0:pb:A:6 1:rm:B:4", "walkbody B", "allbody B 0:rm:A:4"}, Tag: "history"},
+		{Lines: []string{"@ C13 slist z", "pb 1", "pb 2", "pb 3", "pb 4", "allbody 0:rm:1", "allbody 0:rm:0", "next 0", "pbn 0", "walkbody", "allbody 1:ins:2:9 2:rmf", "walkbody 0:pb:7 1:swap:0:1 3:break", "allbody 0:rmf", "len"}, Tag: "history"},
+		// a node returned by Remove(0)/RemoveFront/Remove(i) is detached: re-linked at the back of this
+		// list and of the second list (flip), no cycle, no shared tail
+		{Lines: []string{"@ C13 slist n", "pb 1", "pb 2", "pb 3", "rm 0", "next 0", "pbn 0", "walkbody", "rm 0", "insn 5 1", "len", "back", "rm 0", "flip", "pbn 2", "next 2", "len", "flip", "len", "back", "rmf", "flip", "insn 1 0", "walkbody", "flip", "walkbody", "rm 0", "pfn 1", "next 1"}, Tag: "history"},
 		// SList: head/tail bookkeeping at sizes 0,1,2
 		{Lines: []string{"@ C13 slist", "rmf", "rm 0", "get 0", "pb 1", "rm 0", "pf 2", "rmf", "ins 5 3", "ins -1 4", "ins 1 5", "rm 2", "rm 1", "rm 0", "swap 0 0"}},
 		{Lines: []string{"@ C13 slist", "pb 1", "pb 2", "pb 3", "swap 0 2", "swap 2 1", "swap 1 3", "swap -1 0", "rm 2", "pb 4", "rm 0", "pf 5", "get 2", "get 3", "get -1", "new 9", "insn 1 5", "rm 1", "pbn 5", "rm 3", "pfn 5"}},
